@@ -472,6 +472,23 @@ func c03CommitCancel(tier string, seed int64, idx int, scratch string) rt.CaseRe
 			return c
 		}
 		tx.Rollback(ctxBg)
+		// whatever the Commit said, the transaction is over now: a ReadUncommitted reader sees the
+		// committed state and nothing else
+		if ru, rerr := env.DB.Begin(ctxBg, fs_db.IsoLevelReadUncommitted); rerr == nil {
+			for i, k := range keys {
+				if i > 60 {
+					break
+				}
+				b, gerr := ru.Get(ctxBg, k)
+				want, has := expect[k]
+				if has && (gerr != nil || !bytes.Equal(b, want)) || !has && seqrun.Class(gerr) != refmodel.NotFound {
+					c.Violate("cancelled-commit-left-writes-visible reader=read-uncommitted", fmt.Sprintf("after the Commit (%v) and a Rollback of the same handle, a ReadUncommitted transaction reads %q as %s (%v), committed is %s (has a value: %v)", cerr, k, seqrun.Describe(b), gerr, seqrun.Describe(want), has), plan)
+					ru.Rollback(ctxBg)
+					return c
+				}
+			}
+			ru.Rollback(ctxBg)
+		}
 		c.AddDistinct(fmt.Sprintf("commitcancel/%s/keys=%d/committed=%v", modeName(mode), nk, cerr == nil))
 		c.Count("commits_cancelled_that_failed", b2i(cerr != nil))
 	}
